@@ -13,7 +13,7 @@ KB = 1 << 62
 
 def run(c, p):
     from npstructures import Counter
-    keys = arr(c["keys"], "int64")
+    keys = arr(c["keys"], p.get("kdtype", "int64"))
     kw = {} if c["mod"] is None else {"mod": c["mod"]}
     if p["init"] == "default":
         ctr = Counter(keys, **kw)
@@ -40,7 +40,7 @@ def sym(E, p, kf):
         keys = [E.int(f"k{i}", -KB, KB) for i in range(n)]
     if n > 1 and not p.get("fixed_keys"):
         E.assume(z3.Distinct(*keys))
-    mod = E.choose("mod", list(range(1, p["modmax"] + 1)) + ([None] if p.get("defaultmod", True) else []))
+    mod = E.choose("mod", p["mods"] if p.get("mods") else list(range(1, p["modmax"] + 1)) + ([None] if p.get("defaultmod", True) else []))
     if p["init"] == "default":
         init = [0]
     elif p["init"] == "scalar":
@@ -91,6 +91,10 @@ def jobs(tier, seed):
     for fk, init in (([1, 2, 3], "default"), ([8, 1, 15], "array"), ([3, -4, 10, 5], "scalar")):
         out.append(dict(n=len(fk), fixed_keys=fk, kb=16, modmax=7, ns=3 if q else 4, batches=1, init=init))
     out.append(dict(n=3, fixed_keys=[1, 2, 3], kb=9, modmax=7, ns=2, batches=2, init="default"))
+    # buckets of three, two and one key under one modulus; narrow key dtypes with bucket numbers beyond half the dtype's range
+    out.append(dict(n=6, fixed_keys=[0, 7, 14, 1, 8, 2], kb=16, mods=[7], ns=3, batches=1, init="default"))
+    out.append(dict(n=2, fixed_keys=[130, 7], kb=140, mods=[200, 131, None], ns=2, batches=1, init="default", kdtype="uint8"))
+    out.append(dict(n=2, fixed_keys=[100, -3], kb=110, mods=[120, None], ns=2, batches=1, init="array", kdtype="int8"))
     if not q:
         out.append(dict(n=3, modmax=2, ns=2, batches=1, init="default"))
         out.append(dict(n=2, modmax=2, ns=3, batches=1, init="array"))
